@@ -197,8 +197,8 @@ def c10(ctx):
     tdir = os.path.join(ctx.scratch, "traces")
     os.makedirs(tdir)
     trep_path = os.path.join(ctx.scratch, "jsontrace.json")
-    ctx.vdrive(["jsontrace", "-outdir", tdir, "-docs", 600 if quick else 12000, "-seed", ctx.seed + 1000, "-out", trep_path,
-                "-shards", core.NCPU, "-parse-every", 8 if quick else 16, "-subtype-only"])
+    ctx.vdrive(["jsontrace", "-outdir", tdir, "-docs", 450 if quick else 12000, "-seed", ctx.seed + 1000, "-out", trep_path,
+                "-shards", core.NCPU, "-parse-every", 8 if quick else 16, "-subtype-only", "-maxcuts", 120])
     trep = ctx.report(trep_path)
     jfiles = sorted(glob.glob(os.path.join(tdir, "*.ndjson")))
     results = ctx.validate_traces("TraceJson.tla", "TraceJson.cfg", jfiles)
@@ -227,7 +227,7 @@ def c10(ctx):
         evaluations=rep["evaluations"] + trep["evaluations"],
         vectors_replayed=rep["extra"]["vectors"],
         distinct_nontrivial=rep["distinct_nontrivial"],
-        rule="vectors: every sequence of <= %d chunks over {{ }} [ ] , 1 [1] \"type\": \"Feature\" \"log\": \"version\": \"asset\": \"2.0\"} x query type {json, geo, har, gltf} not rejected before its last byte (TLC, no VIEW; invariants C10Pos/C10Neg relate the scanner model to the top-level-member tracker written from the statement); each replayed on json.Parse and the four detectors in whole and truncated mode, and (query json) through Detect comparing the reported class with the tracker's allowed classes. non-trivial = viable prefix of a valid document. traces: %d generated objects with deciding / look-alike members at random positions among siblings of every shape, x up to 48 limits, validated by TraceJson.tla (TC10)" % (nchunks, trep["extra"]["documents"]),
+        rule="vectors: every sequence of <= %d chunks over {{ }} [ ] , 1 [1] \"type\": \"Feature\" \"log\": \"version\": \"asset\": \"2.0\"} x query type {json, geo, har, gltf} not rejected before its last byte (TLC, no VIEW; invariants C10Pos/C10Neg relate the scanner model to the top-level-member tracker written from the statement); each replayed on json.Parse and the four detectors in whole and truncated mode, and (query json) through Detect comparing the reported class with the tracker's allowed classes. non-trivial = viable prefix of a valid document. traces: %d generated objects with deciding / look-alike members at random positions among siblings of every shape, x up to 120 limits (every cut for most documents), validated by TraceJson.tla (TC10)" % (nchunks, trep["extra"]["documents"]),
         exhaustive=True,
         bounds=dict(max_chunks=nchunks),
         drift=dict(vector_replay=rep["drift"], samples=rep.get("drift_samples", [])[:5], trace=tdrift),
